@@ -368,6 +368,56 @@ def explore_nopanic(item):
     return out
 
 
+REJECT_FIELD_ATTRS = [
+    ('unknown key', '#[ts(bogus)]', 'i32', 'all'), ('malformed value', '#[ts(rename = 5)]', 'i32', 'named'),
+    ('type x as', '#[ts(type = "a", as = "String")]', 'i32', 'all'), ('type x inline', '#[ts(type = "a", inline)]', 'i32', 'all'),
+    ('flatten x rename', '#[ts(flatten, rename = "y")]', 'Inner', 'named'), ('flatten x inline', '#[ts(flatten, inline)]', 'Inner', 'named'),
+    ('flatten x type', '#[ts(flatten, type = "a")]', 'Inner', 'named'), ('flatten x optional', '#[ts(flatten, optional)]', 'Option<Inner>', 'named'),
+    ('optional on a tuple field', '#[ts(optional)]', 'Option<i32>', 'tuple'), ('flatten on a tuple field', '#[ts(flatten)]', 'Inner', 'tuple'),
+    ('rename on a tuple field', '#[ts(rename = "r")]', 'i32', 'tuple'),
+]
+REJECT_POSITIONS = [
+    ('struct field', 'named', 'struct S {{ {A} x: {F}, y: i32 }}', False), ('tuple struct field', 'tuple', 'struct S({A} {F}, i32);', False),
+    ('newtype struct field', 'tuple', 'struct S({A} {F});', False),
+    ('struct variant field', 'named', '{E} enum S {{ {V} A {{ {A} x: {F}, y: i32 }}, B }}', True),
+    ('tuple variant field', 'tuple', '{E} enum S {{ {V} A({A} {F}, i32), B }}', True),
+    ('newtype variant field', 'tuple', '{E} enum S {{ {V} A({A} {F}), B }}', True),
+]
+REJECT_ENUM = ['', '#[ts(tag = "t")]', '#[ts(tag = "t", content = "c")]', '#[ts(untagged)]']
+REJECT_VARIANT = ['', '#[ts(as = "String")]', '#[ts(type = "string")]', '#[ts(rename = "Z")]', '#[ts(untagged)]']
+
+
+def rejection_part(rep):
+    """Native guard (the real derive, compiled, run on concrete inputs -- no solver): every documented-invalid field attribute set is
+    rejected in EVERY position a field can occur in (struct / tuple struct / newtype, and the three variant shapes under every tagging
+    and every variant-level override), with an error and without a panic.  The attribute tables themselves are decided symbolically
+    above; this part checks that each position actually routes its fields through them."""
+    nat = G['native']
+    reqs, meta = [], []
+    for pname, pkind, tmpl, is_enum in REJECT_POSITIONS:
+        for what, attr, fty, where in REJECT_FIELD_ATTRS:
+            if where != 'all' and where != pkind:
+                continue
+            for e in (REJECT_ENUM if is_enum else ['']):
+                for v in (REJECT_VARIANT if is_enum else ['']):
+                    src = tmpl.format(A=attr, F=fty, E=e, V=v)
+                    reqs.append(['expand', src])
+                    meta.append((pname, what, src))
+    ans = nat.batch(reqs)
+    ob = di = 0
+    for (pname, what, src), a in zip(meta, ans):
+        ob += 1
+        if a[0] == 'ok':
+            rep.violations.append({'what': f'invalid field attributes ({what}) on a {pname} are accepted silently: `{src}` expands', 'witness': {'item': src},
+                                   'key': f'reject/{pname}/{what}'})
+        elif 'panic' in a[0] or (len(a) > 1 and 'panicked' in str(a[1])):
+            rep.violations.append({'what': f'the derive panics on `{src}`: {a}', 'witness': {'item': src}, 'key': f'reject-panic/{pname}/{what}'})
+        else:
+            di += 1
+    rep.absorb(dict(obligations=ob, discharged=di))
+    rep.part('native rejection corpus (positions x invalid field attributes x taggings x variant overrides)', inputs=ob)
+
+
 def optional_probe_part(rep):
     """Tier B: "`optional` on a field that is not an Option is a compile error" rests on a probe the derive plants in the generated
     code: `check_that_field_is_option::<FieldType>` (bounded by `IsOption`) next to every field carrying `#[ts(optional..)]`.  For every
@@ -466,6 +516,7 @@ def main():
                     'the type_def / format_field / format_variant code generators themselves (they build token streams)']
     rep.assumptions += ['the frozen incompatibility table lists exactly the conflicts diagnosed at the pinned commit (it is the specification '
                         'of "documented as incompatible")']
+    rejection_part(rep)
     try:
         optional_probe_part(rep)
     except Unsupported as e:
